@@ -137,6 +137,11 @@ fn outers<I: Trace + 'static>(idesc: &str, mk: &dyn Fn(&Leaves) -> I) {
         let _g = c.borrow_mut();
         run()
     });
+    // a shared borrow alive: `Trace` (needs `try_borrow_mut`) reports nothing, `Finalize` (needs `try_borrow`) forwards
+    probe(&format!("cell2({})", idesc), |l| RefCell::new(mk(l)), |c, run| {
+        let _g = c.borrow();
+        run()
+    });
     probe(&format!("md({})", idesc), |l| ManuallyDrop::new(mk(l)), plain);
     probe(&format!("aus({})", idesc), |l| AssertUnwindSafe(mk(l)), plain);
 }
@@ -194,6 +199,20 @@ pub fn containers() {
     probe("cell0(cc)", |l| RefCell::new(l.mk()), plain);
     probe("cell1(cc)", |l| RefCell::new(l.mk()), |c, run| {
         let _g = c.borrow_mut();
+        run()
+    });
+    probe("cell2(cc)", |l| RefCell::new(l.mk()), |c, run| {
+        let _g = c.borrow();
+        let _g2 = c.borrow();
+        run()
+    });
+    probe("vec(cell2(cc),cell1(cc),cell0(cc))", |l| vec![RefCell::new(l.mk()), RefCell::new(l.mk()), RefCell::new(l.mk())], |c, run| {
+        let _g = c[0].borrow();
+        let _h = c[1].borrow_mut();
+        run()
+    });
+    probe("cell2(vec(cc,cc))", |l| RefCell::new(vec![l.mk(), l.mk()]), |c, run| {
+        let _g = c.borrow();
         run()
     });
     probe("phantom", |_| std::marker::PhantomData::<Cc<Leaf>>, plain);
@@ -780,6 +799,20 @@ impl Drop for FNode {
 }
 thread_local! {
     static KEEPF: RefCell<Vec<Cc<FNode>>> = const { RefCell::new(Vec::new()) };
+    static GUARD: FlagGuard = const { FlagGuard };
+}
+static STUCK_FLAGS: std::sync::atomic::AtomicUsize = std::sync::atomic::AtomicUsize::new(0);
+/// Registered before everything else, hence destroyed after everything else: whatever the other thread-local destructors
+/// did, the collector must not be left "collecting" / "tracing".
+struct FlagGuard;
+impl Drop for FlagGuard {
+    fn drop(&mut self) {
+        let tracing = matches!(rust_cc::state::is_tracing(), Ok(true));
+        let flags = hooks::phase_flags().unwrap_or((false, false, false));
+        if tracing || flags.0 || flags.1 || flags.2 {
+            STUCK_FLAGS.fetch_add(1, std::sync::atomic::Ordering::SeqCst);
+        }
+    }
 }
 fn fnode() -> Cc<FNode> {
     Cc::new(FNode { next: RefCell::new(None), canary: Cell::new(0xA11CE) })
@@ -806,6 +839,7 @@ fn tcfg(which: usize) {
     let _ = which;
 }
 fn fin_scenario(user_first: bool, cfg: usize, shape: usize) {
+    GUARD.with(|_| ());
     if user_first {
         KEEPF.with(|k| k.borrow_mut().clear());
     } else {
@@ -829,7 +863,13 @@ fn fin_scenario(user_first: bool, cfg: usize, shape: usize) {
         }
         _ => {}
     }
-    KEEPF.with(|k| k.borrow_mut().push(a));
+    // several objects: the later ones are dropped after the finalizer of the first has allocated and collected
+    let extra = [fnode(), fnode()];
+    KEEPF.with(|k| {
+        let mut k = k.borrow_mut();
+        k.push(a);
+        k.extend(extra);
+    });
 }
 
 fn tnode() -> Cc<TNode> {
@@ -917,9 +957,11 @@ pub fn teardown() {
                 use std::io::Write;
                 print!("teardown fin/{}/cfg{}/shape{} ", if user_first { "user-tls-first" } else { "collector-first" }, cfg, shape);
                 let _ = std::io::stdout().flush();
+                let stuck_before = STUCK_FLAGS.load(std::sync::atomic::Ordering::SeqCst);
                 let r = std::thread::spawn(move || fin_scenario(user_first, cfg, shape)).join();
                 let dd = DOUBLE_DROPS.load(std::sync::atomic::Ordering::SeqCst) - before;
-                println!("{} double_drops={}", if r.is_ok() { "ok" } else { "PANICKED" }, dd);
+                let stuck = STUCK_FLAGS.load(std::sync::atomic::Ordering::SeqCst) - stuck_before;
+                println!("{} stuck_flags={} double_drops={}", if r.is_ok() { "ok" } else { "PANICKED" }, stuck, dd);
             }
         }
     }
